@@ -25,7 +25,7 @@ var R = hx.NewRecorder("C13", "cases = (two long-term keys, two ephemeral keys, 
 var cv = rsm2.Std
 
 func TestMain(m *testing.M) {
-	R.Require("V_leading_zero", "eph_leading_zero", "id_empty", "klen%32!=0", "klen>32", "offcurve", "V_infinite", "id_too_long", "key_all_zero", "V_infinite_own_t_zero", "offcurve_foreign_curve", "offcurve_foreign_b", "ids_in_one_buffer", "t_sparse")
+	R.Require("V_leading_zero", "eph_leading_zero", "id_empty", "klen%32!=0", "klen>32", "offcurve", "V_infinite", "id_too_long", "key_all_zero", "V_infinite_own_t_zero", "offcurve_foreign_curve", "offcurve_foreign_b", "ids_in_one_buffer", "t_sparse", "eph_minus_G")
 	hx.Main(m, R)
 }
 
@@ -59,6 +59,16 @@ func drawKX(t *rapid.T) kx {
 		c.klen = 1
 	}
 	c.shared = rapid.IntRange(0, 2).Draw(t, "sharedIDs") == 0
+	if gen.OneIn(t, "ephMinusG", 8) {
+		// the ephemeral secret n-1 (the standard draws r from [1, n-1]): the ephemeral point is -G, which shares its x
+		// coordinate with the base point
+		k := gen.Key{D: new(big.Int).Sub(cv.N, big.NewInt(1)), Pub: cv.Neg(cv.G()), Class: "eph_minus_G"}
+		if rapid.Bool().Draw(t, "ephMinusGSide") {
+			c.ra = k
+		} else {
+			c.rb = k
+		}
+	}
 	// a long-term key chosen so that t = d + xbar(R)*r mod n is SPARSE (a power of two plus a little): the scalar
 	// the implementation multiplies by then has very long runs of zero digits, which random keys never give
 	if k := rapid.IntRange(0, 7).Draw(t, "sparseT"); k < 2 {
@@ -176,6 +186,9 @@ func classes(c kx) []string {
 	}
 	if c.shared {
 		cl = append(cl, "ids_in_one_buffer")
+	}
+	if c.ra.Class == "eph_minus_G" || c.rb.Class == "eph_minus_G" {
+		cl = append(cl, "eph_minus_G")
 	}
 	if c.a.Class == "sparse_t" || c.b.Class == "sparse_t" {
 		cl = append(cl, "t_sparse")
